@@ -121,8 +121,9 @@ class ComputationCache:
             self.invalidate_cache()
             # Compute those values in which we are interested.
             comp(only)
-            # Mark individual as no longer changed.
-            self._chromosome.changed = False
+            # Mark individual as no longer changed, unless there was nothing to compute.
+            if only is not None or funcs:
+                self._chromosome.changed = False
         else:
             # The individual has not changed, but maybe not all values are cached.
             # So we might have to compute the missing ones.  The sizes of the cache
